@@ -1362,6 +1362,117 @@ def rule_p1(ctx):
 P1_FLOOR = 12
 
 
+A12_EXC = {
+    "nni_dialer_start_aio": "the d_started latch (atomic test-and-set at the top) admits one caller until the dialer is closed; "
+                            "d_user_aio is written by that caller only",
+}
+
+
+def rule_a12(ctx):
+    from .. import guards as G
+    r = ctx.rule("C02.A12", "T1", "a one-place park field is not overwritten while it is occupied: a store of the caller's aio into a "
+                 "pointer field of a long-lived object (o->F = aio) is reached only over an edge that found o->F NULL, after "
+                 "o->F was cleared or its occupant completed in this function, or into an object this function has just "
+                 "created (the transports' p_send / p_recv slots are entered for one operation per direction at a time: that "
+                 "is the pipe contract the protocols keep) -- a second operation stored over a waiting one leaves the first "
+                 "without anybody to complete it, and the object's list node is linked twice", floor=12)
+    prog = ctx.prog
+    slots = prog.slots()
+    contract = {x[0] for k in ("nni_sp_pipe_ops.p_send", "nni_sp_pipe_ops.p_recv") for x in slots.get(k, [])}
+    ALLOC = ("nni_zalloc", "nni_alloc")
+    n = 0
+    for f in prog.functions:
+        if f.cfg_failed or f.file.endswith("_test.c"):
+            continue
+        params = {p_["n"] for p_ in f.params if "aio" in (p_.get("t") or "")}
+        if not params:
+            continue
+        for s_ in f.assigns():
+            nd = s_.node
+            if nd.get("op") != "=" or nd["lhs"].get("k") != "mem" or "aio *" not in (nd["lhs"].get("t") or ""):
+                continue
+            rhs = f.expand(nd["rhs"])
+            if rhs.get("k") != "var" or rhs["n"] not in params:
+                continue
+            fld = nd["lhs"]["f"]
+            base = nd["lhs"]["b"]
+            n += 1
+            what = "%s (line %s)" % (show(nd), s_.line)
+            if f.name in contract:
+                r.ob(f, what + ": transport pipe slot, one operation per direction (pipe contract)")
+                continue
+            if f.name in A12_EXC:
+                r.exception(f.name, A12_EXC[f.name])
+                r.ob(f, what + ": admitted by a latch")
+                continue
+            # (b) object created here: the base local is defined from an allocation or filled in through its address
+            #     (or, for a parameter of a file-local helper, in every caller)
+            def created_in(g, var):
+                for t in g.sites():
+                    for m in walk(g.expand(t.node)):
+                        if m.get("k") == "asg" and m["lhs"].get("k") == "var" and m["lhs"]["n"] == var:
+                            if any(c.get("k") == "call" and c.get("fn") in ALLOC for c in walk(m["rhs"])):
+                                return True
+                        if m.get("k") == "decls":
+                            for d in m["d"]:
+                                if d["n"] == var and d.get("init") is not None and \
+                                        any(c.get("k") == "call" and c.get("fn") in ALLOC for c in walk(g.expand(d["init"]))):
+                                    return True
+                        if m.get("k") == "call":
+                            for a in m["args"]:
+                                a = g.expand(a) if a is not None else None
+                                if a is not None and a.get("k") == "un" and a.get("op") == "&" and a["e"].get("k") == "var" \
+                                        and a["e"]["n"] == var:
+                                    return True
+                return False
+            fresh = False
+            if base.get("k") == "var" and base.get("vk") == "local":
+                fresh = created_in(f, base["n"])
+            elif base.get("k") == "var" and base.get("vk") == "param" and f.static and not prog.fn_refs(f.name):
+                idx = [p_["n"] for p_ in f.params].index(base["n"])
+                cs = [(g, c) for g, c in prog.callers().get(f.name, []) if g.file == f.file]
+                fresh = bool(cs) and all(
+                    idx < len(c.node["args"]) and c.node["args"][idx] is not None and
+                    g.expand(c.node["args"][idx]).get("k") == "var" and g.expand(c.node["args"][idx]).get("vk") == "local" and
+                    created_in(g, g.expand(c.node["args"][idx])["n"]) for g, c in cs)
+            if fresh:
+                r.ob(f, what + ": the object is created in this function")
+                continue
+            # (a)/(c) every path to the store has found the field NULL, cleared it, or completed its occupant
+            def is_f(x, fld=fld):
+                return x.get("k") == "mem" and x["f"] == fld
+            nz = G.nz_edges(f, is_f)
+            for bid, k, atom, val in G.edge_facts(f):
+                if is_f(atom) and not val:
+                    nz[bid] = 1 - k
+                if atom.get("k") == "bin" and atom.get("op") in ("==", "!=") and \
+                        ((is_f(atom["lhs"]) and is_null(atom["rhs"])) or (is_f(atom["rhs"]) and is_null(atom["lhs"]))):
+                    if (atom["op"] == "==") == bool(val):
+                        nz[bid] = 1 - k
+            clears = set()
+            for t in f.sites():
+                e = f.expand(t.node)
+                if e.get("k") == "asg" and is_f(e["lhs"]) and (is_null(f.expand(e["rhs"])) or t is not s_ and False):
+                    clears.add((t.b, t.i))
+                if e.get("k") == "call" and e.get("fn") in ("nni_aio_finish", "nni_aio_finish_error", "nni_aio_finish_sync", "nni_aio_finish_msg") \
+                        and e["args"] and any(is_f(m) for m in walk(f.expand(e["args"][0]))):
+                    clears.add((t.b, t.i))
+            seen = f.reach((f.entry, 0), blocked=lambda b, i, e_: (b, i) in clears,
+                           edge_ok=lambda b, k: not (b in nz and k == 1 - nz[b]))
+            if (s_.b, s_.i) in seen:
+                path = f.find_path((f.entry, 0), lambda b, i, t=s_: (b, i) == (t.b, t.i), blocked=lambda b, i, e_: (b, i) in clears,
+                                   edge_ok=lambda b, k: not (b in nz and k == 1 - nz[b]))
+                ctx.fail(r, f, "%s overwritten while occupied" % fld, s_.line,
+                         "%s stores the caller's aio into %s (line %s) on a path that has neither found that field NULL nor "
+                         "cleared it nor completed its occupant: an operation still waiting there is lost (never completed) and "
+                         "the object is queued a second time" % (f.name, show(nd["lhs"]), s_.line), path=f.path_lines(path))
+            else:
+                r.ob(f, what + ": only where the field was found NULL / cleared / its occupant completed")
+    if n < 12:
+        raise AnalysisBroken("only %d stores of a caller's aio into a park field found" % n)
+
+
+
 def run(ctx):   # noqa: F811
     ctx.guard(rule_a1)
     ctx.guard(rule_a2)
@@ -1380,3 +1491,4 @@ def run(ctx):   # noqa: F811
     ctx.guard(rule_a9)
     ctx.guard(rule_a10)
     ctx.guard(rule_a11)
+    ctx.guard(rule_a12)
